@@ -64,6 +64,30 @@ def rule_r1_r5(facts, rep):
             rep.ok(r1, key, "guard is a fn-level statement before the patch and the edit are built", loc(f, guard))
         else:
             rep.violation(r1, key, "the taken-name test comes after the patch/edit construction started", loc(f, guard))
+    # the affected-set binding: the `let` whose initialiser asks the graph for the referrers of a key
+    aff = None
+    for x in fb.walk(body):
+        if x.get("k") == "let" and x.get("init") is not None and any(
+                y.get("k") == "mcall" and (fb.callee(y) or "").endswith(("Graph::get_block_references_to", "Graph::get_inline_references_to")) for y in fb.walk(x["init"])):
+            aff = x
+            break
+    aff_ids = set(lid for _n, lid in fb.pat_bindings(aff["pat"])) if aff is not None else set()
+
+    def over_affected(node):
+        """closure parameter id if `node` lies in a closure that iterates over the affected set (for_each / map on it), else None"""
+        ps_ = c.parents(node)
+        for i_, p_ in enumerate(ps_):
+            if p_.get("k") == "closure":
+                for pp in ps_[i_ + 1:i_ + 3]:
+                    if pp.get("k") == "mcall" and pp["name"] in ("for_each", "map", "flat_map", "filter_map") and p_ in pp.get("args", []):
+                        r_ = pp["recv"]
+                        while r_ is not None and r_.get("k") == "mcall" and r_["name"] in ("iter", "into_iter", "clone", "par_iter", "into_par_iter", "cloned"):
+                            r_ = r_["recv"]
+                        if r_ is not None and r_.get("k") == "path" and r_.get("id") in aff_ids:
+                            pids = [lid for q_ in p_.get("params", []) for _n, lid in fb.pat_bindings(q_)]
+                            return pids[0] if pids else -1
+        return None
+
     # ---- R5 one derivation
     uses = []
 
@@ -90,8 +114,7 @@ def rule_r1_r5(facts, rep):
     bks = [x for x in fb.walk(body) if x.get("k") == "mcall" and x["name"] == "build_key"]
     for bk in bks:
         ps = c.parents(bk)
-        in_loop = any(p.get("k") == "closure" and any(pp.get("k") == "mcall" and pp["name"] in ("for_each", "map") and pp.get("recv") is not None and "affected" in fb.show(pp["recv"]) for pp in c.parents(p)[:2]) for p in ps)
-        if not in_loop:
+        if over_affected(bk) is None:
             use("build_key(new)", bk["args"][0])
     if guard is not None:
         mk0 = [x for x in fb.walk(guard["c"]) if x.get("k") == "mcall" and x["name"] == "maybe_key"][0]
@@ -120,13 +143,9 @@ def rule_r1_r5(facts, rep):
         else:
             rep.violation(r5, key, "the new key is not Key::from_rel_link_url(params.new_name, <note>.parent()): the name typed at a link is relative to that note's directory", f.loc)
     # ---- R2 affected set
-    aff = None
-    for x in fb.walk(body):
-        if x.get("k") == "let" and any(n == "affected_keys" for n, _ in fb.pat_bindings(x["pat"])):
-            aff = x
     key = f.def_ + "|affected-set"
     if aff is None:
-        rep.anchor_missing(r2, "binding `affected_keys` in handle_rename")
+        rep.anchor_missing(r2, "a `let` in handle_rename that collects the referrers of a key (get_block_references_to / get_inline_references_to)")
     else:
         init = aff["init"]
         calls = [x for x in fb.walk(init) if x.get("k") == "mcall"]
@@ -153,7 +172,10 @@ def rule_r1_r5(facts, rep):
         filters = [x for x in calls if x["name"] == "filter"]
         for fl in filters:
             t = fb.show(fl["args"][0]).replace(" ", "")
-            if "!=" not in t or "key" not in t:
+            kid_ids = set(k_[0] for k_ in kid)
+            cmp_ = [y for y in fb.walk(fl["args"][0]) if y.get("k") == "binary" and y["op"] == "!="]
+            okf = bool(cmp_) and any(y.get("k") == "path" and y.get("id") in kid_ids for y in fb.walk(cmp_[0]))
+            if not okf:
                 probs.append("unexpected filter `%s`" % t[:60])
         if probs:
             rep.violation(r2, key, "; ".join(probs) + " — notes that link to the renamed note are left with dangling links", loc(f, aff))
@@ -185,7 +207,7 @@ def rule_r1_r5(facts, rep):
             continue
         b_id = _local_id(bk["args"][0])
         c_id = _local_id(col[0]["args"][0])
-        in_aff = b_id[1] and "affected" in b_id[1]
+        in_aff = over_affected(bk) is not None
         key = "%s|rebuild:%s" % (f.def_, "affected" if in_aff else "renamed")
         if in_aff:
             if b_id == c_id:
@@ -224,8 +246,9 @@ def rule_r1_r5(facts, rep):
     for x in ops["to_override_file_op"]:
         # url key and exported key must be the same closure parameter
         r = x["recv"]
-        urlk = [y for y in fb.walk(r) if y.get("k") == "path" and y.get("res") == "local" and "affected" in (y.get("name") or "")]
-        expk = [y for y in fb.walk(x["args"][1]) if y.get("k") == "path" and y.get("res") == "local" and "affected" in (y.get("name") or "")] if len(x["args"]) > 1 else []
+        cp = over_affected(x)
+        urlk = [y for y in fb.walk(r) if y.get("k") == "path" and y.get("res") == "local" and y.get("id") == cp]
+        expk = [y for y in fb.walk(x["args"][1]) if y.get("k") == "path" and y.get("res") == "local" and y.get("id") == cp] if len(x["args"]) > 1 else []
         k2 = f.def_ + "|override-affected"
         okx = urlk and expk and urlk[0]["id"] == expk[0]["id"] and any(y.get("k") == "mcall" and y["name"] == "export_key" for y in fb.walk(x["args"][1]))
         if okx:
@@ -306,12 +329,12 @@ def rule_r3_r4(facts, rep):
             for s in st:
                 fm = {fl["name"]: fl["e"] for fl in s["fields"]}
                 if "key" in fm and fm["key"].get("k") == "if":
-                    cond = fb.show(fm["key"]["c"])
-                    t_ = fb.show(fm["key"]["t"])
-                    e_ = fb.show(fm["key"]["e"])
-                    if "target_key" in cond and ".key" in cond and "updated_key" in t_ and "reference.key" in e_.replace(" ", ""):
+                    cond = fb.show_canon(f, fm["key"]["c"]).replace(" ", "")
+                    t_ = fb.show_canon(f, fm["key"]["t"]).replace(" ", "")
+                    e_ = fb.show_canon(f, fm["key"]["e"]).replace(" ", "")
+                    if "P1" in cond and "b0.key" in cond and "P2" in t_ and "P1" not in t_ and "b0.key" in e_:
                         okr = True
-                keep = all(nm in fm and ("reference.%s" % nm) in fb.show(fm[nm]).replace(" ", "") for nm in ("text", "reference_type"))
+                keep = all(nm in fm and ("b0.%s" % nm) in fb.show_canon(f, fm[nm]).replace(" ", "") for nm in ("text", "reference_type"))
                 okr = okr and keep
             if okr:
                 rep.ok(r3, key, "key replaced iff equal to the target; text and kind copied", loc(f, body))
@@ -389,7 +412,7 @@ def rule_r3_r4(facts, rep):
     rb = rebuilt[0]
     a = rb["args"]
     # url from updated_key
-    if ("param", "updated_key") in c.vprov(a[0]) or "updated_key" in fb.show(a[0]):
+    if "P2" in fb.show_canon(ck, a[0]) and "P1" not in fb.show_canon(ck, a[0]):
         rep.ok(r4, key + "|url", "url = updated_key", loc(ck, rb))
     else:
         rep.violation(r4, key + "|url", "the rewritten link's destination is `%s`, not the new key" % fb.show(a[0]), loc(ck, rb))
@@ -437,8 +460,8 @@ def rule_r3_r4(facts, rep):
     # guard: only links whose key equals the target
     iffs = [p for p in c.parents(rb) if p.get("k") == "if"]
     k2 = key + "|only-target"
-    cond = fb.show(iffs[0]["c"]) if iffs else ""
-    if iffs and "target_key" in cond and "ref_key" in cond and "is_ref" in cond:
+    cond = fb.show_canon(ck, iffs[0]["c"]) if iffs else ""
+    if iffs and "P1" in cond and "ref_key" in cond and "is_ref" in cond and "!" not in cond.replace("!=", ""):
         rep.ok(r4, k2, "rewritten only if is_ref() && ref_key() == target", loc(ck, iffs[0]))
     else:
         rep.violation(r4, k2, "the Link arm rewrites links under `%s` (must be is_ref() && ref_key() == target): other links are retargeted" % cond[:80], loc(ck, rb))
